@@ -47,25 +47,38 @@ Arrangements(prog) ==
                         : b \in SwapsOfBody(prog.preds[pi].rules[ri].body)}
                      : ri \in 1..Len(prog.preds[pi].rules)} : pi \in 1..Len(prog.preds)}
 
+(* base carries the inference of the program as written (inf), computed    *)
+(* once per hand-made program.                                             *)
 Init ==
   LET items == ndJsonDeserialize(IOEnv.LEMMA_FILE)
-  IN \E i \in 1..Len(items) : base = items[i] /\ cur = items[i].prog
+  IN \E i \in 1..Len(items) :
+        /\ base = [item |-> items[i], inf |-> Infer(items[i].prog)]
+        /\ cur = items[i].prog
 
 Next == /\ cur' \in Arrangements(cur)
         /\ UNCHANGED base
 
 Spec == Init /\ [][Next]_vars
 
-PermInvariant ==
-  LET a == Infer(cur) b == Infer(base.prog)
-  IN a.ok = b.ok /\ a.det = b.det /\ (a.ok => a.sig = b.sig)
+Perm(a, b) == a.ok = b.ok /\ a.det = b.det /\ (a.ok => a.sig = b.sig)
+Labelled(a) == /\ a.ok = base.item.ok
+               /\ a.det = base.item.det
+               /\ base.item.hassig => a.sig = base.item.sig
+SoundAt(a) == (a.ok /\ a.det) => WellTypedUnder(cur, a.sig)
 
-AsLabelled ==
+PermInvariant == Perm(Infer(cur), base.inf)
+AsLabelled == Labelled(Infer(cur))
+Sound == SoundAt(Infer(cur))
+
+(* The three lemmas with the inference of the arrangement shared (what the  *)
+(* check runs; the clause that fails is printed).                          *)
+AllLemmas ==
   LET a == Infer(cur)
-  IN /\ a.ok = base.ok
-     /\ a.det = base.det
-     /\ base.hassig => a.sig = base.sig
-
-Sound ==
-  LET a == Infer(cur) IN (a.ok /\ a.det) => WellTypedUnder(cur, a.sig)
+      p == Perm(a, base.inf)
+      l == Labelled(a)
+      s == SoundAt(a)
+  IN IF p /\ l /\ s THEN TRUE
+     ELSE /\ PrintT(<<"LEMMA-FAILED", base.item.name,
+                      [PermInvariant |-> p, AsLabelled |-> l, Sound |-> s]>>)
+          /\ FALSE
 =============================================================================
